@@ -89,6 +89,7 @@ type BscRec struct {
 	Code uint32                 `json:"code"`
 	Log  string                 `json:"log"`
 	St   BscState               `json:"st"`
+	Cdig string                 `json:"cdig"` // digest of the client's whole sub-store, byte for byte (determinism, C20)
 	Info map[string]interface{} `json:"info"`
 }
 
@@ -521,13 +522,13 @@ func runBsc(t *testing.T, inp *Input, tr int, beh []json.RawMessage, out func(in
 	})
 	r := &bscRunner{t: t, n: bscNet, ks: ks, name: fmt.Sprintf("bscverif%06d", tr), tr: tr,
 		hashID: map[common.Hash]int{}, rootID: map[common.Hash]int{}, t0: bscT0}
-	out(&BscRec{Tr: tr, I: 0, Ev: json.RawMessage(`{"act":"Reset"}`), St: r.project(),
+	out(&BscRec{Tr: tr, I: 0, Ev: json.RawMessage(`{"act":"Reset"}`), St: r.project(), Cdig: r.n.ClientDigestOf("A", r.name),
 		Info: map[string]interface{}{"client": r.name, "seal_hash_cross_checked_on_recorded_headers": bscSealN,
 			"key0": hex.EncodeToString(ks.addrs[0][:4])}})
 	step := 0
 	emit := func(ev json.RawMessage, code uint32, lg string, info map[string]interface{}) {
 		step++
-		out(&BscRec{Tr: tr, I: step, Ev: ev, Code: code, Log: lg, St: r.project(), Info: info})
+		out(&BscRec{Tr: tr, I: step, Ev: ev, Code: code, Log: lg, St: r.project(), Cdig: r.n.ClientDigestOf("A", r.name), Info: info})
 	}
 	for _, raw := range beh {
 		var ev BscEvent
